@@ -126,23 +126,6 @@ Definition parse_i32 (s : str) : option Z :=
   let z := if neg then (- v)%Z else v in
   if ((i32_min <=? z) && (z <=? i32_max))%Z then Some z else None.
 
-(** str::parse::<usize> (64-bit): optional '+', ASCII digits+, value < 2^64 *)
-Definition parse_usize (s : str) : option N :=
-  let d := match strip_prefix [43] s with Some r => r | None => s end in
-  if is_empty d || negb (forallb is_digit d) then None else
-  let v := dec_value d in
-  if v <? 18446744073709551616 then Some v else None.
-
-(** format! with one hole: evaluates {{ }} {} of a template literal *)
-Fixpoint fmt1 (tpl arg : str) : str :=
-  match tpl with
-  | [] => []
-  | 123 :: 123 :: r => 123 :: fmt1 r arg
-  | 125 :: 125 :: r => 125 :: fmt1 r arg
-  | 123 :: 125 :: r => arg ++ fmt1 r arg
-  | c :: r => c :: fmt1 r arg
-  end.
-
 (* ------------------------------------------------------------------ index buffers *)
 (** [tokens.remove(i); for (j, t) in items { tokens.insert(i + j, t) }] *)
 Definition splice {A} (i : nat) (items : list A) (l : list A) : list A :=
@@ -181,52 +164,6 @@ Fixpoint set_text (i : nat) (text : str) (toks : tokens) : tokens :=
   | t :: r, S k => t :: set_text k text r
   end.
 
-(* ------------------------------------------------------------------ Regex::replace templates *)
-(** regex-automata util/interpolate.rs: [$$], [$name], [${name}], [$1]; a reference to a
-    group that does not exist (or did not participate) expands to nothing. *)
-Definition cap_ref (G : N -> str) (NM : str -> option N) (name : str) : str :=
-  match parse_usize name with
-  | Some i => G i
-  | None => match NM name with Some i => G i | None => [] end
-  end.
-
-(** [r] = the template text after a [$] that is not followed by [$]; returns the
-    expansion of the reference and how many characters of [r] it spans *)
-Definition find_cap_ref (G : N -> str) (NM : str -> option N) (r : str) : option (str * nat) :=
-  match r with
-  | [] => None
-  | d :: r' =>
-      if d =? 123 then
-        match split_first 125 r' with
-        | Some (name, _) => Some (cap_ref G NM name, S (S (length name)))
-        | None => None
-        end
-      else let (name, _) := span is_alnum_us r in
-           if is_empty name then None else Some (cap_ref G NM name, length name)
-  end.
-
-Fixpoint tpl_go (G : N -> str) (NM : str -> option N) (skip : nat) (t : str) : str :=
-  match t with
-  | [] => []
-  | c :: r =>
-      match skip with
-      | S k => tpl_go G NM k r
-      | O =>
-          if c =? 36 then
-            match r with
-            | [] => [36]
-            | d :: _ =>
-                if d =? 36 then 36 :: tpl_go G NM 1 r
-                else match find_cap_ref G NM r with
-                     | None => 36 :: tpl_go G NM 0 r
-                     | Some (txt, n) => txt ++ tpl_go G NM n r
-                     end
-            end
-          else c :: tpl_go G NM 0 r
-      end
-  end.
-Definition expand_template (G : N -> str) (NM : str -> option N) (t : str) : str := tpl_go G NM 0 t.
-
 (* ------------------------------------------------------------------ expand_alias *)
 Fixpoint alias_collect (W : World) (toks : tokens) (idx : nat) (is_head : bool) : list (nat * str) :=
   match toks with
@@ -245,12 +182,10 @@ Definition expand_alias (tokenize : str -> tokens) (W : World) (toks : tokens) :
   apply_buff (map (fun e => (fst e, tokenize (snd e))) (alias_collect W toks 0 true)) toks.
 
 (* ------------------------------------------------------------------ expand_home *)
-(** re.replace_all(text, to) with re = src_home, to = fmt1 src_home_template home; [rest] = text after the ~ *)
+(** re.replace_all(text, |caps| home + caps[tail]) with re = src_home (since 1c7eddf the home directory is
+    text, not a replacement template); [rest] = text after the ~ ; the tail group stops at a newline *)
 Definition home_replace (W : World) (rest : str) : str :=
-  let (tl, post) := split_nl rest in
-  let G := fun i : N => if i =? 0 then 126 :: tl else if i =? 1 then tl else [] in
-  let NM := fun n : str => if str_eqb n (s2l "tail") then Some 1 else None in
-  expand_template G NM (fmt1 src_home_template (home W)) ++ post.
+  let (tl, post) := split_nl rest in (home W ++ tl) ++ post.
 
 Definition expand_home_tok (W : World) (t : token) : token :=
   if tag_is_empty (fst t) then
@@ -563,13 +498,11 @@ Definition head_of (before : str) : str * str :=
   | None => ([], before)
   end.
 
+(** since 5e2d7b7 the replacer is a closure that concatenates the head group, the output and the tail
+    group: the output is text *)
 Definition dollar_splice (before cmd tail post out : str) : str :=
   let (pre, head) := head_of before in
-  let whole := head ++ [36; 40] ++ cmd ++ [41] ++ tail in
-  let G := fun i : N => if i =? 0 then whole else if i =? 1 then head else if i =? 2 then tail else [] in
-  let NM := fun n : str => if str_eqb n (s2l "head") then Some 1
-                           else if str_eqb n (s2l "tail") then Some 2 else None in
-  pre ++ expand_template G NM (fmt1 src_dollar_template out) ++ post.
+  pre ++ (head ++ out ++ tail) ++ post.
 
 (** the [loop] of do_command_substitution_for_dollar on one token; the log lists the
     lines handed to CommandLine::from_line (run when they plan), in order.
